@@ -349,6 +349,27 @@ func runHostile(c *drv.Ctx) error {
 			violations = append(violations, checkDelivered(first.msg)...)
 		}
 
+		// the whole input read by successive FromNet calls on one reader (two kinds of reader must agree)
+		var seqTerms []string
+		for k, sr := range []io.Reader{bytes.NewBuffer(append([]byte(nil), input...)), &dribble{b: input}} {
+			var ts []string
+			for _, g := range fromNetSeq(mh, sr, len(input)+2) {
+				if g.kind == "msg" {
+					orc.addMsg(g.msg)
+					violations = append(violations, checkDelivered(g.msg)...)
+				}
+				if g.kind == "panic" {
+					violations = append(violations, [2]string{"panic in FromNet: " + g.what, "panic-fromnet"})
+				}
+				ts = append(ts, g.term(rd))
+			}
+			if k == 0 {
+				seqTerms = ts
+			} else if strings.Join(ts, ";") != strings.Join(seqTerms, ";") {
+				violations = append(violations, [2]string{"successive FromNet calls give different results for different chunking of the same bytes", "fromnet-chunking"})
+			}
+		}
+
 		idx := w.Stats.Evaluations
 		o, err := hn.observe(idx, 0, input)
 		if err != nil {
@@ -382,7 +403,7 @@ func runHostile(c *drv.Ctx) error {
 		if o.reset {
 			tags = append(tags, "go-reset")
 		}
-		term := fmt.Sprintf("(mk_hcase %s %s\n    %s %d %s %s %s\n    %s)", hx(input), firstTerm, cw.List(msgTerms), o.errors,
+		term := fmt.Sprintf("(mk_hcase %s %s\n    %s\n    %s %d %s %s %s\n    %s)", hx(input), firstTerm, cw.List(seqTerms), cw.List(msgTerms), o.errors,
 			cw.Bool(o.reset), cw.Bool(o.serving), cw.Bool(first.kind == "panic"), orc.term())
 		got := w.Add(term, hc, nontrivial, tags...)
 		seen := map[string]bool{}
